@@ -164,7 +164,7 @@ def _case(rng: Rng, tier, entry=None, force=None):
     case["ykind"] = ykind
     # a sampling grid with a gap wider than twice the bandwidth and query locations inside the gap (empty local problems)
     gap = (method == "LP" and not two_d and not entry.endswith("covariance") and not entry.startswith("PSplines")
-           and (force.get("gap") or rng.random() < 0.3))
+           and not force.get("pooled_n") and (force.get("gap") or rng.random() < 0.3))
     # smoothing parameters
     if method == "PS":
         case["nseg"] = [rng.choice([2, 3, 4, 5, 8] + ([12, 20] if big else [])) for _ in range(2)]
@@ -278,17 +278,28 @@ def _case(rng: Rng, tier, entry=None, force=None):
         if cov and force.get("bigq"):
             m = 8
         nobs = rng.randint(3, 5) if cov else rng.randint(2, 4)
+        pooled_n = force.get("pooled_n")
+        if pooled_n:
+            pooled = True
         if pooled:
             # more than 2000 pooled observations (size threshold of the approximate mean), many curves sharing few locations
             m, nobs = rng.choice([44, 48]), rng.choice([52, 60])
             case["pooled"] = True
+        if pooled_n:
+            # an exact pooled sample size on either side of the size switch (1500, 1999, 2000, 2001, 2500), 25 points per curve
+            m, nobs = 50, pooled_n // 25
+            case["pooled_n"] = pooled_n
         g = _gap_grid(rng, m if pooled else (rng.choice([33, 41]) if case.get("far") else rng.choice([17, 21, 25]))) if gap else _grid01(rng, m)
         m = len(g)
         obs = []
         for k in range(nobs):
             need = 7 if cov else 6
             idx = sorted(rng.sample(range(m), rng.randint(min(need, m), m) if not pooled else 40))
-            if k == 0:
+            if pooled_n:
+                size = 25 + (pooled_n - 25 * nobs if k == nobs - 1 else 0)
+                idx = sorted(rng.sample(range(1, m - 1), size - 2)) + [0, m - 1] if k == 0 else sorted(rng.sample(range(m), size))
+                idx = sorted(idx)
+            elif k == 0:
                 idx = sorted(set(idx) | {0, m - 1})
             gi = [g[i] for i in idx]
             obs.append(dict(t=[rs(t) for t in _scale_pts(dom, gi)], y=[rs(t) for t in _curve(rng, gi, (ykind if k == 0 else "smooth") if not pooled else "rand")]))
@@ -296,6 +307,14 @@ def _case(rng: Rng, tier, entry=None, force=None):
         Q = _gap_queries(rng, g) if gap else _queries(rng, g, k=rng.randint(4, 5) if cov else None)
         case["Q"] = [rs(t) for t in _scale_pts(dom, Q)]
         case["variants"] = [[nm, [rs(t) for t in _scale_pts(dom, v)]] for nm, v in _variants(rng, Q, g, samecount=not cov)]
+        if pooled_n:
+            # request sizes 401, 101, 11, 1 (+ a sub-range): the estimate at a location must not depend on the request size
+            Qb = [Fraction(k, 512) for k in range(56, 457)]
+            pk = lambda v: [rs(t) for t in _scale_pts(dom, v)]  # noqa: E731
+            case["Q"] = pk(Qb)
+            case["variants"] = [["n101", pk(Qb[::4])], ["n11", pk(Qb[::40])], ["n1", pk([Qb[200]])], ["subrange", pk(Qb[180:230])], ["n1_end", pk([Qb[0]])]]
+            if method == "LP":
+                case["hu"], case["degree"] = rs(Fraction(1, 8)), rng.choice([0, 1])
         if cov:
             case["variants"] = case["variants"][:5]
         if cov and method == "LP":
@@ -305,7 +324,7 @@ def _case(rng: Rng, tier, entry=None, force=None):
             case["degree"] = rng.choice([1, 2])
             case["hu"] = rs(rng.choice([Fraction(3, 4), Fraction(1)]))
     # near-coincident DISTINCT query locations (gaps of 1e-9 … 1e-5 bandwidths), requested jointly, alone, reversed
-    if not two_d and not entry.endswith("covariance") and not gap and not case.get("pooled") and (force.get("near") or rng.random() < 0.25):
+    if not two_d and not entry.endswith("covariance") and not gap and not case.get("pooled") and not force.get("pooled_n") and (force.get("near") or rng.random() < 0.25):
         lo_, sc_ = _domain(dom)
         hdat = (F(case["hu"]) if method == "LP" else Fraction(1, 8)) * sc_
         Qf = [F(t) for t in case["Q"]]
@@ -368,6 +387,9 @@ def gen_cases(rng: Rng, tier):
                 k += 1
     for method in ("PS", "LP"):
         yield _case(rng, tier, "IrregularFunctionalData.mean", dict(method=method, dom=rng.choice(["unit", "end0", "doy"]), nonconst=True, pooled=True))
+        k += 1
+    for pn, method in ((1500, "LP"), (2000, "LP"), (2001, "LP"), (2500, "LP"), (1500, "PS")) + (((1999, "LP"), (2001, "PS"), (1999, "PS")) if tier == "thorough" else ()):
+        yield _case(rng, tier, "IrregularFunctionalData.mean", dict(method=method, dom=rng.choice(["unit", "doy"]), nonconst=True, pooled_n=pn))
         k += 1
     for entry in ("LocalPolynomial.predict", "DenseFunctionalData.smooth", "DenseFunctionalData.mean", "IrregularFunctionalData.smooth", "IrregularFunctionalData.mean", "PSplines.predict"):
         yield _case(rng, tier, entry, dict(method="PS" if entry.startswith("PSplines") else "LP", dom=rng.choice(["unit", "doy", "shift1000"]), nonconst=True, near=True))
@@ -714,6 +736,8 @@ def _modelled(case, p1, p2):
         return len(p1) <= 12
     if p2 is not None:
         return len(p1) * len(p2) <= 150
+    if case.get("pooled_n"):
+        return len(p1) <= (60 if case["pooled_n"] > 2000 else 11)
     return len(p1) <= (300 if case["method"] == "PS" else 140)
 
 
@@ -1014,6 +1038,8 @@ def classify(case, impl):
         tags.append("pooled>2000")
     if case.get("near"):
         tags.append("near-coincident-queries")
+    if case.get("pooled_n"):
+        tags.append(f"pooled-size:{case['pooled_n']}")
     if case.get("bigq") or case.get("many"):
         tags.append(f"query-size:{case.get('bigq') or case.get('many')}")
     if case.get("gap"):
